@@ -3,6 +3,7 @@ files, evidence, exit codes (0 held / 1 violation / 2 harness error)."""
 import importlib
 import json
 import os
+import re
 import subprocess
 import sys
 import time
@@ -55,8 +56,15 @@ def safe_execute(mod, case):
     (innermost frame inside the pydsol sources) is a violation of totality /
     containment, anything else is a harness error."""
     import traceback
+    lvl = case.get("_log_level") if isinstance(case, dict) else None
+    if lvl is not None:
+        common.library_log_level(lvl)
     try:
-        return mod.execute(case)
+        try:
+            return mod.execute(case)
+        finally:
+            if lvl is not None:
+                common.library_log_level(50)
     except Exception as e:
         tb = traceback.extract_tb(e.__traceback__)
         src = os.path.abspath(common.REPO_SRC)
@@ -89,6 +97,9 @@ class _RunOne:
         mod = self.mod
         seed = common.derive_seed(self.base_seed, mod.PROPERTY, idx)
         case = mod.generate(seed, self.tier, idx)
+        if isinstance(case, dict) and seed % 10 == 3 and not case.get("skip"):
+            # configuration swarm: the library's loggers at DEBUG in 10 % of the runs
+            case["_log_level"] = 10
         res = safe_execute(mod, case)
         if res.get("fail_case") is not None:
             case = res["fail_case"]
@@ -189,6 +200,7 @@ def write_replay(mod, failure, case, res, size_before):
         "tree": common.tree_fingerprint(), "seed": failure["seed"],
         "index": failure["index"], "case": case,
         "expect": {"message": res["message"], "digest": res["digest"]},
+        "python_flags": common.py_flags(),
         "minimised_from": size_before,
         "minimised_to": mod.case_size(case) if hasattr(mod, "case_size") else None,
     }
@@ -230,7 +242,7 @@ def verify_replay_fresh(path):
     """Replay the file in a fresh interpreter; return (check_id, digest)."""
     env = dict(os.environ)
     env["PYTHONHASHSEED"] = "0"
-    p = subprocess.run([common.PYTHON, "-m", "vf.cli", "replay", path],
+    p = subprocess.run([common.PYTHON] + common.py_flags() + ["-m", "vf.cli", "replay", path],
                        cwd=common.VERIF_DIR, env=env, capture_output=True,
                        text=True, timeout=600)
     for line in p.stdout.splitlines():
@@ -240,8 +252,31 @@ def verify_replay_fresh(path):
     return None, None, "no-output:" + p.stdout[-500:] + p.stderr[-500:]
 
 
+def _optimized(mod, prop, tier, base_seed, budget, workers):
+    """Fault 'interpreter flags': a slice of the budget is run in a child
+    interpreter started with -O (asserts stripped, __debug__ False) on seed
+    indices after the main range.  Returns (exit code, runs, output lines)."""
+    share = getattr(mod, "OPTIMIZED_SHARE", 0.04)
+    n = int(min(max(budget * share, 8 if budget < 500 else 200), 6000))
+    n = max(1, min(n, budget))
+    cmd = [common.PYTHON, "-O", "-m", "vf.cli", "run", prop, "--tier", tier,
+           "--runs", str(n), "--first-index", str(budget), "--no-evidence",
+           "--no-optimized-pass"]
+    if workers:
+        cmd += ["--workers", str(workers)]
+    env = dict(os.environ)
+    env["VERIF_SEED"] = str(base_seed)
+    p = subprocess.run(cmd, cwd=common.VERIF_DIR, env=env, capture_output=True, text=True,
+                       timeout=3600)
+    lines = [l for l in (p.stdout + p.stderr).splitlines()
+             if l.startswith(("VIOLATION", "  check=", "  minimised", "  the ", "HARNESS-ERROR"))]
+    m = re.search(r": (\d+) evaluations \((\d+) runs", p.stdout)
+    evals = int(m.group(1)) if m else 0
+    return p.returncode, n, evals, lines
+
+
 def run_check(prop, tier, base_seed, runs=None, workers=None, wall_cap=None,
-              write_evidence=True):
+              write_evidence=True, first_index=0, optimized_pass=True):
     mod = load_module(prop)
     t0 = time.time()
     budget = runs if runs is not None else mod.BUDGET[tier]
@@ -254,7 +289,7 @@ def run_check(prop, tier, base_seed, runs=None, workers=None, wall_cap=None,
         agg, completed, capped = farm.run_farm(
             run_one, budget, workers=workers, init=_init_worker(mod),
             chunk=getattr(mod, "CHUNK", 200), wall_cap=wall_cap,
-            chunk_timeout=getattr(mod, "CHUNK_TIMEOUT", 600))
+            chunk_timeout=getattr(mod, "CHUNK_TIMEOUT", 600), first_index=first_index)
     except farm.HarnessError as e:
         err("HARNESS-ERROR property=%s: %s" % (prop, e))
         return 2
@@ -397,6 +432,21 @@ def run_check(prop, tier, base_seed, runs=None, workers=None, wall_cap=None,
             % (evals, size_before,
                mod.case_size(small) if hasattr(mod, "case_size") else None,
                len(fl)))
+    if optimized_pass and not sys.flags.optimize and exit_code != 2:
+        # the same check on further seeds under `python -O`
+        try:
+            rc, n_opt, ev_opt, lines = _optimized(mod, prop, tier, base_seed, budget, workers)
+        except Exception as e:       # noqa: BLE001
+            err("HARNESS-ERROR property=%s optimised pass: %s" % (prop, e))
+            rc, n_opt, ev_opt, lines = 2, 0, 0, []
+        for l in lines:
+            out(l)
+        agg.counters["fault:interpreter_flag_O(runs)"] = n_opt
+        agg.counters["optimized_pass_evaluations"] = ev_opt
+        if rc == 1:
+            violations += sum(1 for l in lines if l.startswith("VIOLATION"))
+        elif rc != 0:
+            exit_code = 2
     if violations and exit_code == 0:
         exit_code = 1
     wall = time.time() - t0
@@ -406,10 +456,13 @@ def run_check(prop, tier, base_seed, runs=None, workers=None, wall_cap=None,
         os.makedirs(EVIDENCE_DIR, exist_ok=True)
         with open(os.path.join(EVIDENCE_DIR, prop + ".json"), "w") as f:
             json.dump(ev, f, indent=1, sort_keys=True, default=str)
-    out("%s tier=%s seed=%d: %d evaluations (%d runs of %d budgeted%s), %d distinct "
+    out("%s tier=%s seed=%d: %d evaluations (%d runs of %d budgeted%s%s), %d distinct "
         "non-trivial, %d violation(s), %d known finding(s), %.1fs"
         % (prop, tier, base_seed, agg.evaluations, completed, budget,
-           ", stopped early" if capped else "", len(agg.nontrivial), violations,
+           ", stopped early" if capped else "",
+           "; +%d runs under python -O" % agg.counters["fault:interpreter_flag_O(runs)"]
+           if agg.counters.get("fault:interpreter_flag_O(runs)") else "",
+           len(agg.nontrivial), violations,
            len([k for k in known if k in open_ids]), wall))
     return exit_code
 
